@@ -48,6 +48,9 @@ def patterns():
         P(S(a, 1), b), p.Comparison(a, "<", b), p.If(p.Comparison(a, "<", 0), b, c), S(a, a), S(P(a, a), b), S(P(2, a), b),
         p.Call(f, (S(a, b),)), S(a, p.Call(f, (a,))), P(a, b, c), S(p.Power(a, 2), p.Power(b, 2), c), P(p.Call(f, (a,)), p.Call(f, (b,)), c),
         S(a, P(b, p.Call(g, (a,)))), p.Power(S(a, b), c), S(p.Subscript(arr, a), b),
+        # one variable twice below a non-commutative node
+        p.Call(f, (a, a)), p.Power(a, a), p.Comparison(p.Call(g, (a,)), "<", a), p.If(p.Comparison(a, "<", 0), a, b),
+        p.Subscript(arr, (a, a)), p.Call(f, (a, b, a)), p.Quotient(a, S(a, b)),
     ]
 
 
@@ -85,6 +88,9 @@ def substitutions():
         ("renaming", {"a": x, "b": y, "c": z}), ("renaming2", {"a": z, "b": x, "c": y}),
         ("exprs", {"a": S(x, 1), "b": P(2, y), "c": z}), ("nested", {"a": p.Call(f, (x,)), "b": P(x, y), "c": x}),
         ("noninjective", {"a": x, "b": x, "c": x}), ("powers", {"a": P(2, x), "b": p.Power(x, 2), "c": S(y, z)}),
+        # targets that use the pattern's own variable names
+        ("renaming-identity", {}), ("renaming-rotated", {"a": V("b"), "b": V("c"), "c": V("a")}),
+        ("own-names", {"a": V("a"), "b": S(V("a"), V("c")), "c": V("b")}),
     ]
 
 
@@ -104,6 +110,36 @@ def subst(e, m):
             v = subst(v, m)
         vals.append(v)
     return type(e)(*vals)
+
+
+def _replace_last(e, name, repl):
+    """replace the last occurrence (in traversal order) of variable `name` -> (tree, replaced?)"""
+    state = {"left": None}
+
+    def count(x):
+        if isinstance(x, p.Variable):
+            return int(x.name == name)
+        return sum(count(c) for c in children_of(x))
+    total = count(e)
+    if total < 2:
+        return e, False
+    state["left"] = total
+
+    def rec(x):
+        import dataclasses
+        if isinstance(x, p.Variable):
+            if x.name == name:
+                state["left"] -= 1
+                if state["left"] == 0:
+                    return repl
+            return x
+        if isinstance(x, tuple):
+            return tuple(rec(c) for c in x)
+        if not isinstance(x, p.Expression):
+            return x
+        return type(x)(*[rec(getattr(x, f.name)) if isinstance(getattr(x, f.name), (p.Expression, tuple)) else getattr(x, f.name)
+                         for f in dataclasses.fields(x)])
+    return rec(e), True
 
 
 def reverse_ac(e):
@@ -244,6 +280,13 @@ def check_unify(pi, tier, twin=False):
     for oj, other in enumerate(others):
         if other is not pat:
             targets.append((f"other{oj}", subst(other, substitutions()[0][1]), False))
+            targets.append((f"other{oj}-own-names", other, False))
+    # the pattern with one occurrence of a repeated variable changed (near misses, also with the pattern's own names)
+    for nm in sorted(used):
+        for repl in (V("x"), V("b") if nm != "b" else V("a")):
+            t, done = _replace_last(pat, nm, repl)
+            if done:
+                targets.append((f"lastocc-{nm}->{repl}", t, False))
     for tname, target, must_match in targets:
         cand_sets = [CAND] + ([sorted(used)] if used and sorted(used) != CAND else []) + [[], frozenset()]
         if tier == "thorough" and not twin:
